@@ -149,6 +149,10 @@ func newOPT(c *Cloner, udpSize uint16, doBit bool) (opt *dns.OPT) {
 	} else {
 		opt = c.opt.rr.Get()
 		opt.Option = opt.Option[:0]
+
+		// The extended rcode, the version, and the flags of the previous user
+		// of the structure must not leak into the new record.
+		opt.Hdr.Ttl = 0
 	}
 
 	opt.Hdr.Name = "."
